@@ -15,6 +15,7 @@ EXPLANATION = (
     "errors and returns before type checking; (4) the `start` call is appended after all statements; (5) ordering "
     "containers are BTreeMap/BTreeSet keyed by variable id (deterministic, source order for independent statements)."
     ' (START, IMPORT-PASS) the entry point and the imports do not depend on the order of `use` lines (IMPORT-PASS is a known finding); no annotation position is exempt from VISIT-dep.'
+    ' (COPY environment, INFERENCE - shared) open types of globals stay shared by instances and nothing is decided about a type only because it is not known yet: both would make acceptance depend on which definition is checked first. (VISIT-dep) sub-slices and inlined helpers count as dropping elements.'
 )
 UNDECIDED = (
     "behavioural equivalence of permuted programs when independent initialisers have side effects; "
